@@ -46,7 +46,8 @@ TRUSTED = [
     "get_id_pack, get_methods, class_factory, bool(), raise, *-unpacking of a non-plain value, on_disconnect) is the "
     "environment's move: universally quantified in the theorems (any result, any exception, any number of callbacks to "
     "the peer, stateful), observed on the real run in the correspondence",
-    "the interpreter is CPython 3.12 (the one /venv/bin/python runs): every plain value is hashable there, slices included, "
+    "the interpreter is CPython 3.12 (the one /venv/bin/python runs; obligation interpreter_hashes_slices on the generated "
+    "measurement): every plain value is hashable there, slices included, "
     "so a dict lookup with any decoded value (handler id, LOCAL_REF identifier, sequence number) is KeyError-or-hit; on 3.11 "
     "a slice inside such a value gives TypeError instead (the model would have to split that case)",
     "CPython facts the dispatch code relies on, transcribed by hand: tuple/str/bytes/frozenset unpacking and indexing "
@@ -68,7 +69,14 @@ ASSUMPTIONS = [
     "repaired while this check was built (known_findings.json: fixed): HANDLE_DEL with a count that is not an int "
     "(RefCountingColl.decref compared under its non-reentrant lock: a proxy as count could block the serving thread for "
     "good) and HANDLE_CALL with args/kwargs that are not tuples (dict(kwargs) ran keys()/[k] of a held object); the oracle "
-    "demands both refusals, and the recorder refuses to run a decref with a non-int count (`unobservable`)",
+    "demands both refusals, and the recorder refuses to run a decref with a non-int count (`unobservable`); HANDLE_DEL "
+    "with a count below 1 (raised the stored count), class_factory / vinegar.load running a module-level __getattr__ with "
+    "a peer-chosen name: all followed in the model",
+    "two reported weaknesses of the pinned code are NOT part of the statement until repaired (evidence: coverage.measured, "
+    "ratchet EXPECTED_FIXED): HANDLE_CMP consults the connection's policy on type(obj), not the object's own "
+    "_rpyc_getattr, so a safe-listed operator the object's hook denies still runs (build-c06's finding); class_factory reads "
+    "`__class__` of ANY module-level object of a loaded module the peer names and stores it as the proxy's class "
+    "(fixes/C07-class-factory-types-only.patch)",
 ]
 EXPLANATION = (
     "Theorems (Lean, for every environment, every finite sequence of bursts of arbitrary decoded values / undecodable "
@@ -78,11 +86,20 @@ EXPLANATION = (
     "a value from a message, a table member, the root or something the environment returned earlier (touch_caps, "
     "table_growth); every table entry was put there by _box under that id pack, a LOCAL_REF yields only such a lent object, "
     "and what the environment merely returned (modules, types, attribute values not yet sent) is not nameable by the peer "
-    "(table_only_lent, local_ref_only_lent, lent_known); the first pass of _unbox changes nothing (local_refs_resolved_first), no pickle and no import / sys.modules lookup happens (no_pickle, no_import), every request is "
+    "(table_only_lent, local_ref_only_lent, lent_known); the first pass of _unbox changes nothing (local_refs_resolved_first), no pickle and no import / sys.modules lookup for an exception class happens (no_pickle, no_import), every request is "
     "answered exactly once or aborted with the connection ending / the exception re-raised in the serving thread "
     "(outcome_total), building a proxy's class after the peer's HANDLE_INSPECT answer only looks the peer-chosen dotted "
-    "name up in sys.modules and does one getattr (classLookup: never an import; closed_world_class_factory), and the "
-    "handler table, signatures and primitive touches of the source equal the modelled ones (closed_world, decide). Handlers' effects on user objects are abstract (environment moves).")
+    "name up in sys.modules and reads the class out of that module's namespace as data (classLookup: never an import, "
+    "no getattr on a module, so no module-level __getattr__ runs; closed_world_class_factory pins the calls class_factory "
+    "makes), and likewise an exception class named in an exception reply (classGate), and the "
+    "handler table, signatures and primitive touches of the source equal the modelled ones (closed_world, decide). "
+    "The policy invariant (Touch.good) constrains five kinds of operation - attribute get/set/del, hasattr probe, pickle, "
+    "__import__, sys.modules lookup for exceptions; every other kind (call, repr/str/hash/dir, islice, isinstance, "
+    "*-unpacking, ...) is constrained only in its OPERANDS: the callable/object must be `known` (touch_caps), i.e. have been "
+    "obtained through permitted operations - 'the peer cannot invoke a callable the policy denies' rests on that, not on a "
+    "per-call policy test (rpyc has none). nested_local_refs_only_lent / unbox_only_lent: for ANY package, at any tuple "
+    "depth, every local object _unbox produces is a table entry lent under that identifier. "
+    "Handlers' effects on user objects are abstract (environment moves).")
 
 CFG_KEYS = ["allow_safe_attrs", "allow_exposed_attrs", "allow_public_attrs", "allow_all_attrs", "allow_getattr",
             "allow_setattr", "allow_delattr", "allow_pickle", "import_custom_exceptions", "instantiate_custom_exceptions",
